@@ -70,6 +70,10 @@ var sinkContexts = []sinkCtx{
 	{"attr-data-name", "# h {data-§=v}", coreExts, true},
 	{"attr-setext", "h {#§}\n===", coreExts, true},
 	{"attr-multi", "# h {#i .c §}", coreExts, true},
+	{"attr-array", "# h {data-x=[§]}", coreExts, true},
+	{"attr-array-dq", "# h {data-x=[\"§\"]}", coreExts, true},
+	{"attr-array-2", "# h {title=[1,\"§\",'§']}", coreExts, true},
+	{"attr-number", "# h {data-x=1§}", coreExts, true},
 	{"table-head", "|§|\n|-|\n|a|", []string{"table", "gfm", "all+cjk"}, false},
 	{"table-cell", "|a|\n|:-|\n|§|", []string{"table", "gfm", "all+cjk"}, false},
 	{"task", "- [ ] §", []string{"tasklist", "all+cjk"}, false},
@@ -240,6 +244,9 @@ func runC03(r *core.Run) {
 	}
 	// (3) neighbourhood of the spec examples in safe XHTML mode
 	nbhdSub(r, "nbhd-spec/all+attr+autoid+xhtml", core.MustCfg("all+attr+autoid+xhtml"), func(s *core.Sub, cv *core.Conv, w []byte) { c03Case(s, cv, w, "nbhd") })
+	for _, cn := range []string{"core+attr", "all+attr+autoid+xhtml"} {
+		attrSub(r, "attributes/"+cn, core.MustCfg(cn), core.Pick(r, 4, 5), func(s *core.Sub, cv *core.Conv, w []byte) { c03Case(s, cv, w, "attributes") })
+	}
 	for _, cn := range []string{"core", "all+attr+autoid+xhtml"} {
 		nestSub(r, "nesting/"+cn, core.MustCfg(cn), core.Pick(r, 3, 4), func(s *core.Sub, cv *core.Conv, w []byte) { c03Case(s, cv, w, "nesting") })
 	}
